@@ -6,5 +6,5 @@ CONSTANTS
   Letters = {5, 7, 9, 12, 13, 17}
   HeaderIds = {1}
   Defects = {}
-INVARIANTS AcceptIffWellFormed ErrorIsACause RejectedHasCause CausesAgree ExposureInv EmitCase
+INVARIANTS AcceptIffWellFormed ErrorIsACause RejectedHasCause CausesAgree TruncationDescribes ExposureInv EmitCase
 CHECK_DEADLOCK FALSE
